@@ -614,7 +614,7 @@ func (e *Engine) callWrites(f *ssa.Function, ci ssa.CallInstruction, ws *WriteSe
 		}
 	}
 	if callee == nil {
-		if fc := e.fnTypeContract(c.Value.Type()); fc != nil && fc.HasAssigns {
+		if fc := e.fnValueContract(c.Value); fc != nil && fc.HasAssigns {
 			var names []string
 			sig := c.Signature()
 			for i := 0; i < sig.Params().Len(); i++ {
@@ -755,6 +755,26 @@ func isPtrToStructByName(f *ssa.Function, pname string) (types.Type, bool) {
 
 func ifaceKey(c *ssa.CallCommon) string {
 	return "(" + types.TypeString(types.Unalias(c.Value.Type()), nil) + ")." + c.Method.Name()
+}
+
+// fnValueContract: the contract a dynamically called function value is checked against: the contract of its
+// named function type, or of the struct field it was loaded from ("fntype field:pkg.T.f", for application
+// callbacks kept in fields of unnamed function type).
+func (e *Engine) fnValueContract(v ssa.Value) *FuncContract {
+	if fc := e.fnTypeContract(v.Type()); fc != nil {
+		return fc
+	}
+	if u, ok := v.(*ssa.UnOp); ok && u.Op == token.MUL {
+		if fa, ok := u.X.(*ssa.FieldAddr); ok {
+			if sty, stt, ok := isPtrToStruct(fa.X.Type()); ok {
+				k := "field:" + typeKey(sty) + "." + stt.Field(fa.Field).Name()
+				if fc := e.cs.Funcs[k]; fc != nil && fc.FnType {
+					return fc
+				}
+			}
+		}
+	}
+	return nil
 }
 
 func (e *Engine) fnTypeContract(t types.Type) *FuncContract {
